@@ -159,6 +159,7 @@ class _Normalizer:
             self._each_function(m, self._generator_form)
             # (a function that returned a generator expression over a helper generator is a loop now: fuse again)
             self._each_function(m, self._fuse_in_function)
+            self._each_function(m, self._drop_unused_nested)
             # (second round: only the forms a fusion may have brought together; loops made from generator expressions keep
             # their enumerate() -- the rules read ITEM(enumerate(..)))
             self._idioms_round2 = True
@@ -1455,13 +1456,41 @@ class _Normalizer:
                 return e.args[0]
             return None
 
+        STD_CONSTS = {'os.SEEK_SET': 0, 'os.SEEK_CUR': 1, 'os.SEEK_END': 2, 'io.SEEK_SET': 0, 'io.SEEK_CUR': 1, 'io.SEEK_END': 2}
+
         class T(ast.NodeTransformer):
             def visit_FunctionDef(self_, n):
                 return n if n is not fnode else self_.generic_visit(n)
             visit_AsyncFunctionDef = visit_FunctionDef
 
+            def visit_Attribute(self_, n):
+                n = self_.generic_visit(n)
+                # the whence constants of seek() are the integers the package writes (fixed by the io module's documentation)
+                if isinstance(n.ctx, ast.Load) and isinstance(n.value, ast.Name) and not shadow(n.value.id):
+                    t = '%s.%s' % (n.value.id, n.attr)
+                    if t in STD_CONSTS and n.value.id in me.m.imports:
+                        return ast.copy_location(ast.Constant(value=STD_CONSTS[t]), n)
+                return n
+
             def visit_Call(self_, n):
                 n = self_.generic_visit(n)
+                # one byte from a small integer: bytes([x]) / bytes((x,)) / x.to_bytes(1, order) / six.int2byte(x) are
+                # struct.pack('B', x) (they agree wherever both are defined: 0..255)
+                one = None
+                if isinstance(n.func, ast.Name) and n.func.id == 'bytes' and not shadow('bytes') and len(n.args) == 1 and not n.keywords \
+                        and isinstance(n.args[0], (ast.List, ast.Tuple)) and len(n.args[0].elts) == 1 \
+                        and not isinstance(n.args[0].elts[0], ast.Starred):
+                    one = n.args[0].elts[0]
+                elif isinstance(n.func, ast.Attribute) and n.func.attr == 'to_bytes' and n.args and isinstance(n.args[0], ast.Constant) \
+                        and n.args[0].value == 1 and len(n.args) <= 2 and all(k_.arg in ('byteorder', 'signed') for k_ in n.keywords) \
+                        and not any(k_.arg == 'signed' and not (isinstance(k_.value, ast.Constant) and k_.value.value is False) for k_ in n.keywords):
+                    one = n.func.value
+                elif ast.unparse(n.func) == 'six.int2byte' and len(n.args) == 1 and not n.keywords:
+                    one = n.args[0]
+                if one is not None:
+                    me.stats['builtin_forms'] = me.stats.get('builtin_forms', 0) + 1
+                    return ast.copy_location(ast.Call(func=ast.Attribute(value=ast.Name(id='struct', ctx=ast.Load()), attr='pack', ctx=ast.Load()),
+                                                      args=[ast.Constant(value='B'), one], keywords=[]), n)
                 if isinstance(n.func, ast.Name) and n.func.id in me.ITER_CONSUMERS and not shadow(n.func.id) and n.args:
                     k = keys_of(n.args[0])
                     if k is not None:
@@ -3381,9 +3410,72 @@ class _Normalizer:
                     fi = f0
                     if f0.kind == 'classmethod':
                         recv = fn.value
+        if fi is None and isinstance(fn, ast.Name):
+            # a function defined inside the function being normalised (a closure over its locals), introduced after the
+            # inventory was frozen: its body can stand where it is called as long as nothing rebinds what it closes over
+            nf = self._nested_helper(fn.id)
+            if nf is not None:
+                return nf, None
         if fi is None or not (self.repo.is_helper(fi) or fi.key in getattr(self, 'force_helpers', ())):
             return None
         return fi, recv
+
+    def _drop_unused_nested(self, fnode, cls, local):
+        """a nested helper whose every call was expanded in place is gone (its yields / returns are not the function's)"""
+        cache = self.__dict__.get('_nested_cache', {})
+        for st in list(_body(fnode)):
+            if isinstance(st, ast.FunctionDef) and (id(fnode), st.name) in cache \
+                    and not any(isinstance(n, ast.Name) and n.id == st.name and isinstance(n.ctx, ast.Load) for n in ast.walk(fnode)):
+                fnode.body.remove(st)
+
+    def _nested_helper(self, name: str):
+        from .oracles.inventory import FUNCTIONS
+        from .srcmodel import FuncInfo
+        cur = getattr(self, '_cur_fnode', None)
+        if cur is None:
+            return None
+        defs = [st for st in _body(cur) if isinstance(st, ast.FunctionDef) and st.name == name]
+        if len(defs) != 1:
+            return None
+        d = defs[0]
+        if d.decorator_list or any(isinstance(n, (ast.Nonlocal, ast.Global, ast.Lambda, ast.ClassDef)) for n in ast.walk(d)) \
+                or any(isinstance(n, ast.FunctionDef) and n is not d for n in ast.walk(d)):
+            return None
+        # pinned nested functions (``iter_items`` of the decoders) keep their form: the rules were confirmed on it
+        owner = None
+        for fi0 in self.repo.all_functions():
+            if fi0.node is cur:
+                owner = fi0
+                break
+        if owner is None or ('%s.%s' % (owner.key, name)) in FUNCTIONS:
+            return None
+        # the name is bound by this def only, and used only in calls
+        for n in ast.walk(cur):
+            if isinstance(n, ast.Name) and n.id == name and isinstance(n.ctx, (ast.Store, ast.Del)):
+                return None
+        loads = [n for n in ast.walk(cur) if isinstance(n, ast.Name) and n.id == name and isinstance(n.ctx, ast.Load)]
+        calls = [n for n in ast.walk(cur) if isinstance(n, ast.Call) and isinstance(n.func, ast.Name) and n.func.id == name]
+        if len(loads) != len(calls):
+            return None
+        # what it closes over is bound before the definition only (parameters, or locals assigned once above it)
+        own = {a.arg for a in d.args.args + d.args.kwonlyargs} | _bound_names(d)
+        free = {n.id for n in ast.walk(d) if isinstance(n, ast.Name) and isinstance(n.ctx, ast.Load)} - own
+        params = {a.arg for a in cur.args.args + cur.args.kwonlyargs}
+        for v in free:
+            if v in params:
+                if any(isinstance(n, ast.Name) and n.id == v and isinstance(n.ctx, (ast.Store, ast.Del)) for n in ast.walk(cur)):
+                    return None
+                continue
+            stores = [n for n in ast.walk(cur) if isinstance(n, ast.Name) and n.id == v and isinstance(n.ctx, (ast.Store, ast.Del))]
+            if not stores:
+                continue       # module-level name / builtin
+            if len(stores) != 1 or getattr(stores[0], 'lineno', 0) >= d.lineno:
+                return None
+        key = (id(cur), name)
+        cache = self.__dict__.setdefault('_nested_cache', {})
+        if key not in cache:
+            cache[key] = FuncInfo(self.m, None, name, d, 'function', None)
+        return cache[key]
 
     def _portable_body(self, fi) -> bool:
         """does every free name of the function's body mean in this module what it means where the function lives?"""
